@@ -37,3 +37,21 @@ impl PartitionEvaluator for BadRank {
     fn include_rank(&self) -> bool { true }
     fn evaluate_all(&mut self, n: usize) -> Result<Vec<i64>, String> { Ok(vec![0; n]) }
 }
+
+/// filter-reaches-accumulator: seeded positive / negative
+pub trait GroupsAcc {
+    fn update_batch(&mut self, values: &[u32], groups: &[usize], opt_filter: Option<&[bool]>, total: usize);
+    fn convert_to_state(&self, values: &[u32], opt_filter: Option<&[bool]>) -> Vec<u32>;
+}
+pub struct Args {
+    pub arguments: Vec<u32>,
+    pub filter: Option<Vec<bool>>,
+}
+pub fn good_convert(acc: &dyn GroupsAcc, a: &Args) -> Vec<u32> {
+    let opt_filter = a.filter.as_ref().map(|f| f.as_slice());
+    acc.convert_to_state(&a.arguments, opt_filter)
+}
+/// seeded: the FILTER never reaches the accumulator
+pub fn bad_convert(acc: &dyn GroupsAcc, a: &Args) -> Vec<u32> {
+    acc.convert_to_state(&a.arguments, None)
+}
